@@ -511,7 +511,10 @@ func Mixed(r *rand.Rand, maxN int) IG {
 		case 4:
 			return Coincidence(r)
 		default:
-			return DAG(r, n, 1.5/float64(n)+r.Float64()*0.2)
+			if n <= 12 {
+				return DAG(r, n, 1.5/float64(n)+r.Float64()*0.2)
+			}
+			return DAG(r, n, (1.5+r.Float64())/float64(n))
 		}
 	}
 	g := base()
